@@ -54,13 +54,39 @@ def builtin(I, name):
 
 # ----------------------------------------------------------------------------- helpers
 
+def inf_val(sign, axes=()):
+    if "Inf" not in nf.ST.head:
+        nf.ST.head["Inf"] = nf.HeadInfo("Inf")
+    return Val(list(axes), [(D(sign), nf.Net([("Inf", ())]))])
+
+
+def inf_sign(v):
+    """+1 / -1 if v is the constant array +inf / -inf, 0 if no Inf head occurs, None if Inf is mixed with other terms."""
+    nt = nf.normalize(v)
+    has = [(c, n) for c, n in nt if any(h == "Inf" for h, _ in n.f)]
+    if not has:
+        return 0
+    if len(nt) == 1 and len(nt[0][1].f) == 1 and nt[0][0].is_const():
+        return 1 if nt[0][0].value() > 0 else -1
+    return None
+
+
+def dominant_inf(v):
+    """sign of the infinite part of  finite + c*Inf  (None if no / ambiguous)."""
+    nt = nf.normalize(v)
+    has = [(c, n) for c, n in nt if any(h == "Inf" for h, _ in n.f)]
+    if len(has) == 1 and len(has[0][1].f) == 1 and has[0][0].is_const():
+        return 1 if has[0][0].value() > 0 else -1
+    return None
+
+
 def _arr(x):
     if isinstance(x, Val):
         return x
     it = _I()
     if it.is_num(x):
         if isinstance(x, float) and x in (float("inf"), float("-inf")):
-            raise Undecided("infinite constant as array")
+            return inf_val(1 if x > 0 else -1)
         return nf.const(x)
     if isinstance(x, bool):
         return nf.const(int(x))
@@ -102,9 +128,29 @@ def _log_const(c):
     raise Undecided(f"log of constant {c}")
 
 
+INF_RULES = {"Phi": {1: 1, -1: 0}, "phi": {1: 0, -1: 0}, "Normpdf": {1: 0, -1: 0}, "Normcdf": {1: 1, -1: 0}, "Normlogcdf": {1: 0},
+             "IsFinite": {1: 0, -1: 0}, "Exp": {-1: 0}, "Tanh": {1: 1, -1: -1}}
+
+
+def elementwise_inf(kind, v):
+    """nf.elementwise with the values at +-infinity of the functions the library applies to truncation limits."""
+    v = _arr(v)
+    sg = inf_sign(v)
+    if sg is None:
+        raise Undecided(f"{kind} of an expression mixing finite and infinite parts")
+    if sg != 0:
+        val = INF_RULES.get(kind, {}).get(sg)
+        if val is None:
+            raise Undecided(f"{kind} at {'+' if sg > 0 else '-'}infinity")
+        return Val(v.axes, [(D(val), nf.Net())] if val else [])
+    return nf.elementwise(kind, v)
+
+
 def _elementwise(kind):
     def f(I, args, kw):
         x = args[0]
+        if isinstance(x, Val) and inf_sign(x) != 0:
+            return elementwise_inf(kind, x)
         if _I().is_num(x):
             if kind == "Log":
                 return _log_const(x)
@@ -252,6 +298,12 @@ def j_take(I, args, kw):
     ax = _axis(kw, args, 2)
     if ax is None:
         raise Undecided("take without axis")
+    mode = kw.get("mode")
+    it = _I()
+    if mode not in (None, "fill") and isinstance(idx, it.IdxArr) and idx.kind in ("generic", "perm"):
+        # non-default out-of-bounds / negative-index semantics ("clip" clamps negative indices to 0, "wrap" wraps out-of-range ones):
+        # a different selection than plain indexing x[idx]
+        idx = it.IdxArr(f"{mode}:{idx.name}", idx.size, kind="generic")
     return _gather(v, _int(ax), idx)
 
 
@@ -415,6 +467,20 @@ def j_maximum(I, args, kw):
     raise Undecided("maximum with non-zero operand")
 
 
+def j_clip(I, args, kw):
+    """clip of an index array is a different selection (negative indices are clamped, not wrapped); clip of a tensor is an opaque
+    elementwise head parameterised by the bounds"""
+    it = _I()
+    a = args[0]
+    lo = args[1] if len(args) > 1 else kw.get("a_min", kw.get("min"))
+    hi = args[2] if len(args) > 2 else kw.get("a_max", kw.get("max"))
+    if isinstance(a, it.IdxArr):
+        return it.IdxArr(f"clip[{lo},{hi}]:{a.name}", a.size, kind="generic")
+    if (lo is None or it.is_num(lo)) and (hi is None or it.is_num(hi)):
+        return nf.elementwise(f"Clip[{lo},{hi}]", _arr(a))
+    raise Undecided("clip with array bounds")
+
+
 def j_max(I, args, kw):
     if _axis(kw, args, 1) is not None:
         raise Undecided("max over an axis")
@@ -479,6 +545,10 @@ def _compare_vals(kind, a, b):
             o = _arr(other)
             return Val(o.axes, [(D(1), nf.Net())] if truth else [], kind="bool")
     d = nf.add(_arr(a), _arr(b), -1)
+    dom = dominant_inf(d)
+    if dom is not None:
+        truth = {"Ge": dom > 0, "Gt": dom > 0, "Le": dom < 0, "Lt": dom < 0, "Eq": False, "Ne": True}[kind]
+        return Val(d.axes, [(D(1), nf.Net())] if truth else [], kind="bool")
     r = nf.elementwise(kind + "0", d)
     r.kind = "bool"
     return r
@@ -488,7 +558,7 @@ def j_isfinite(I, args, kw):
     x = args[0]
     if isinstance(x, float):
         return x not in (float("inf"), float("-inf"))
-    r = nf.elementwise("IsFinite", _arr(x))
+    r = elementwise_inf("IsFinite", _arr(x))
     r.kind = "bool"
     return r
 
@@ -588,6 +658,58 @@ def l_stop_gradient(I, args, kw):
     return args[0]
 
 
+def j_vmap(I, args, kw):
+    it = _I()
+    fn = args[0]
+    in_axes = kw.get("in_axes", args[1] if len(args) > 1 else 0)
+    out_axes = kw.get("out_axes", 0)
+    if out_axes != 0:
+        raise Undecided("vmap with out_axes != 0")
+
+    def mapped(*cargs, **ckw):
+        if ckw:
+            raise Undecided("vmap call with keyword arguments")
+        axes_spec = list(in_axes) if isinstance(in_axes, (tuple, list)) else [in_axes] * len(cargs)
+        if len(axes_spec) < len(cargs):
+            axes_spec = axes_spec + [axes_spec[-1]] * (len(cargs) - len(axes_spec))
+        k = None
+        newargs = []
+        for a, ax in zip(cargs, axes_spec):
+            if ax is None:
+                newargs.append(a)
+                continue
+            if ax != 0 or not isinstance(a, Val):
+                raise Undecided("vmap over a non-leading axis / non-array argument")
+            if not a.axes:
+                raise ShapeError("vmap over a 0-d array")
+            A0 = a.axes[0]
+            if len(A0) != 1:
+                raise Undecided("vmap over a composite or unit axis")
+            if k is None:
+                k = nf.fresh(nf.size(A0[0]), "v")
+            elif nf.size(k) != nf.size(A0[0]):
+                raise ShapeError(f"vmap: mapped axes have sizes {nf.size(k)} and {nf.size(A0[0])}")
+            newargs.append(Val(a.axes[1:], [(c, n.rename({A0[0]: k})) for c, n in a.terms], kind=a.kind))
+        if k is None:
+            raise Undecided("vmap without a mapped argument")
+        nf.ST.ambient.add(k)
+        try:
+            res = I.call(fn, newargs, {})
+        finally:
+            nf.ST.ambient.discard(k)
+
+        def lift(r):
+            if isinstance(r, Val):
+                return Val([(k,)] + list(r.axes), r.terms, kind=r.kind)
+            if isinstance(r, tuple):
+                return tuple(lift(x) for x in r)
+            if it.is_num(r):
+                return Val([(k,)], [(D(r), nf.Net())])
+            raise Undecided("vmap body returns a non-array")
+        return lift(res)
+    return it.PyCallable(mapped, "vmapped")
+
+
 def not_modelled(name):
     def f(I, args, kw):
         raise Undecided(f"{name} is not modelled")
@@ -602,7 +724,7 @@ def s_norm(kind):
             if v is None:
                 raise Undecided("logcdf at infinity")
             return D(v)
-        return nf.elementwise("Norm" + kind, _arr(x))
+        return elementwise_inf("Norm" + kind, _arr(x))
     return f
 
 
@@ -662,7 +784,7 @@ EXT = {
     "jax.numpy.concatenate": j_concatenate, "jax.numpy.hstack": j_hstack, "jax.numpy.block": j_block,
     "jax.numpy.stack": j_stack, "jax.numpy.eye": j_eye, "jax.numpy.zeros": j_zeros, "jax.numpy.ones": j_ones,
     "jax.numpy.empty": j_empty, "jax.numpy.arange": j_arange, "jax.numpy.array": j_array,
-    "jax.numpy.where": j_where, "jax.numpy.maximum": j_maximum, "jax.numpy.max": j_max, "jax.numpy.all": j_all,
+    "jax.numpy.where": j_where, "jax.numpy.maximum": j_maximum, "jax.numpy.clip": j_clip, "jax.numpy.max": j_max, "jax.numpy.all": j_all,
     "jax.numpy.logical_and": j_logical_and, "jax.numpy.greater_equal": _cmp0("Ge"),
     "jax.numpy.less_equal": _cmp0("Le"), "jax.numpy.equal": _cmp0("Eq"), "jax.numpy.isfinite": j_isfinite,
     "jax.numpy.squeeze": j_squeeze, "jax.numpy.ix_": j_ix, "jax.numpy.setxor1d": j_setxor1d,
@@ -679,7 +801,7 @@ EXT = {
     "jax.scipy.linalg.cho_factor": j_cho_factor, "jax.scipy.linalg.cho_solve": j_cho_solve,
     "jax.random.normal": r_normal, "jax.random.PRNGKey": r_prngkey, "jax.random.key": r_prngkey,
     "jax.lax.stop_gradient": l_stop_gradient,
-    "jax.vmap": not_modelled("vmap"), "jax.lax.scan": not_modelled("lax.scan"),
+    "jax.vmap": j_vmap, "jax.lax.scan": not_modelled("lax.scan"),
     "jax.lax.while_loop": not_modelled("lax.while_loop"), "jax.jit": lambda I, a, k: a[0],
     "jax.scipy.stats.norm.pdf": s_norm("pdf"), "jax.scipy.stats.norm.cdf": s_norm("cdf"),
     "jax.scipy.stats.norm.logcdf": s_norm("logcdf"),
@@ -773,6 +895,14 @@ def _scatter(I, base, idx, value):
 def array_binop(I, op, l, r):
     it = _I()
     inf = float("inf")
+    if isinstance(op, ast.Mult):
+        for x, y in ((l, r), (r, l)):
+            if isinstance(x, float) and x in (inf, -inf) and isinstance(y, Val):
+                # inf * ones(shape): the constant infinite array (only for arrays that are identically one)
+                nt = nf.normalize(y)
+                if len(nt) == 1 and not nt[0][1].f and nt[0][0].is_one():
+                    return inf_val(1 if x > 0 else -1, y.axes)
+                raise Undecided("infinite constant times a non-constant array")
     for x in (l, r):
         if isinstance(x, float) and x in (inf, -inf):
             raise Undecided("array arithmetic with an infinite constant")
